@@ -81,6 +81,18 @@ def cases(rng, tier, stats):
         L = rng.range(1, 200 if rng.chance(0.2) else 30)
         src = "".join(rng.choice(pool) for _ in range(L))
         out.append(lex_case("random", src))
+    # line accounting across multi-line tokens: string and comment contents with newlines at the start, in the middle and
+    # directly before the closing delimiter, followed by tokens whose line numbers are compared
+    contents = ["\n", "ক\n", "\nক", "ক\nখ", "ক\nখ\n", "\n\n", "ক\r\n", "\r\nক\r\n", "ক\n\nখ\n", " \n ", "\n\n\nক"]
+    tails = [" x", ";\nx", "\nx;", " + ১ ;\nদেখাও y ;", ";"]
+    nml = 0
+    for cnt in contents:
+        for tl in tails:
+            for pre in ("", "ক = ", "\n\nদেখাও "):
+                out.append(lex_case("multiline-string", pre + '"' + cnt + '"' + tl))
+                out.append(lex_case("multiline-comment", pre + "#" + cnt.replace("#", "") + "#" + tl))
+                nml += 2
+    stats["multiline_token_cases"] = nml
     # keywords glued / separated, valid programs truncated everywhere
     nprog = 60 if tier == "thorough" else 12
     ntr = 0
